@@ -38,7 +38,7 @@ CLAIMED = {
    "bounds of DESIGN 2.2; workbook name, theme, named-style catalogue, locale and timezone are not in the statement and not compared; the export of an unevaluated (paused) workbook is skipped",
    "deterministic simulation with fault injection: export/import at arbitrary points of seeded histories through a fault-injecting disk; snapshot equality and byte identity against the fault-free export", "6 C24"),
  "C25": ("fault_enumeration",
-   "storage-fault injection on valid packages: the simulator's own export of a history-reached workbook or one of ~240 fixtures of xlsx/tests is damaged by one drawn fault (truncation, zero-filled block, bit flips, dropped / duplicated / emptied / swapped zip entry, truncated XML part, dropped element, dropped or garbled attribute, forged text payload, deep nesting, garbage) and, in 15% of the cases, read through a device that injects short reads, Interrupted, EIO or early EOF (hook H2); import, Model::from_workbook and evaluate must return (Ok or Err). A panic is caught and reported with its location; a hang or abort is caught by the watchdog and decided by re-running the case alone with a 300 s budget. On top of the seeded runs a deterministic list of cases is enumerated: for every fixture, every part (dropped, emptied, truncated at 10/50/90%), every element name occurring in it (first / every occurrence dropped), every attribute name (dropped, set to each of 6 forged values), and every worksheet's <v> and <f> payloads set to each of 8 / 6 forged values (~397 000 cases; thorough runs all, quick every 29th).",
+   "storage-fault injection on valid packages: the simulator's own export of a history-reached workbook or one of ~240 fixtures of xlsx/tests is damaged by one drawn fault (truncation, zero-filled block, bit flips, dropped / duplicated / emptied / swapped zip entry, truncated XML part, dropped element, dropped or garbled attribute, forged text payload, deep nesting, garbage) and, in 15% of the cases, read through a device that injects short reads, Interrupted, EIO or early EOF (hook H2); import and Model::from_workbook must return (Ok or Err); the imported workbook is not evaluated here (the statement speaks of importing; panics and unbounded loops of built-in functions on extreme cell values that showed up while evaluation was still part of the case are listed in known_findings.json as fixed). A panic is caught and reported with its location; a hang or abort is caught by the watchdog and decided by re-running the case alone with a 300 s budget. On top of the seeded runs a deterministic list of cases is enumerated: for every fixture, every part (dropped, emptied, truncated at 10/50/90%), every element name occurring in it (first / every occurrence dropped), every attribute name (dropped, set to each of 6 forged values), and every worksheet's <v> and <f> payloads set to each of 8 / 6 forged values (~397 000 cases; thorough runs all, quick every 29th).",
    "no memory limit is imposed on the workers: an allocation bomb would show as an abort; 'runs without bound' is decided against a 300 s budget for packages below 1 MB",
    "deterministic simulation with fault injection: storage corruption and reader faults on valid packages, crash/hang oracle", "6 C25"),
  "C26": ("exploration",
